@@ -82,7 +82,7 @@ def step(x, kind, P, k):
 
 
 READ_PROBES = ["read", "shape", "rowint", "elem", "rowslice", "colslice", "colrev", "ufunc", "rowsum", "iter", "tolist", "nonzero",
-               "colsum", "colcounts", "padded", "padded_left", "unique", "cumsum", "concat", "where", "rslice", "any", "max"]
+               "colint", "rowcolint", "maskidx", "colvals", "colsum", "colcounts", "padded", "padded_left", "unique", "cumsum", "concat", "where", "rslice", "any", "max"]
 WRITE_PROBES = ["set_row", "set_col", "set_all"]
 
 
@@ -117,6 +117,18 @@ def probe(d, kind, P):
         return tuple(tuple(common.pyval(c) for c in r) for r in d.tolist())
     if kind == "nonzero":
         return np.nonzero(d)
+    if kind == "colint":
+        return d[:, pyint(P.int("qj", -B - 1, B + 1))]
+    if kind == "rowcolint":
+        return d[pyint(P.int("qa", -B, B)):, pyint(P.int("qj", -B - 1, B + 1))]
+    if kind == "maskidx":
+        from npstructures import RaggedArray
+        d2 = d[...] if False else d
+        lens = d.shape[1]
+        bits = P.bools("qm", int(d.size))
+        return d[RaggedArray(arr(bits, "bool"), lens)]
+    if kind == "colvals":
+        return d.get_column_values(pyint(P.int("qj", 0, B)))
     if kind == "colsum":
         return d.sum(axis=0)
     if kind == "colcounts":
